@@ -558,8 +558,8 @@ fn thread_programs(ctx: &Ctx) -> Vec<Program> {
 fn eval(ctx: &Ctx, case: &Case) {
   ctx.eval1();
   match case {
-    Case::Jwk { cap, hist } => seq::replay_jwk::<Mem>(*cap, hist).drain_into(ctx, "jwk-replay"),
-    Case::KeyId { hist } => seq::replay_keyid::<Mem>(hist).drain_into(ctx, "keyid-replay"),
+    Case::Jwk { cap, hist } => seq::replay_jwk::<Mem>(*cap, hist, seq::Mode::default()).drain_into(ctx, "jwk-replay"),
+    Case::KeyId { hist } => seq::replay_keyid::<Mem>(hist, seq::Mode::default()).drain_into(ctx, "keyid-replay"),
     Case::Threads(p) => {
       let r = run_program(p);
       report_thread_run(ctx, p, &r);
